@@ -152,6 +152,7 @@ Proof. exact write_leaf_overflow_u. Qed.
 
 Theorem flag_out_of_range_is_error_float32 : forall nm z,
   (float_max 32 * 1024 < Z.abs z)%Z ->       (* beyond math.MaxFloat32 - also where it would round to it *)
+  Z.abs z <> float_inf ->                    (* an infinity given on the command line is not an overflow *)
   write_leaf PStd (FkFloat 64) (TPtr (TBasic (KFloat 32) nm)) (VFloat z) = Err 31.
 Proof. exact write_leaf_overflow_f32. Qed.
 
